@@ -321,6 +321,7 @@ def postReplacements : Str → M Str
 def findQuote (qre : Pat) (text : Str) : Nat → Nat → M (Option Match)
   | 0, _ => raise .outOfFuel
   | fuel+1, nextIndex =>
+    if nextIndex > text.length then pure none else
     match qre.search text nextIndex with
     | none => pure none
     | some mt => do
